@@ -183,6 +183,26 @@ def build(streams):
     return {"nodes": [1], "lenient": True, "ops": ops}
 
 
+def stalled_subscriber(qos, ka):
+    """A subscriber stops reading (its connection stays open) while messages for it and for others keep coming.  The broker's
+    writes to it block; they fail when the connection's write deadline passes (twice its keep-alive), the session is dropped
+    and the others get everything.  Virtual time moves in steps of 0.9 keep-alives with 3.5 s of real time in between (the
+    in-flight table's retransmission deadlines run on the real clock)."""
+    ops = [{"op": "connect", "c": 90, "n": 1, "client": "wit-sub", "ka": 60000},
+           {"op": "sub", "c": 90, "id": 1, "fs": [{"f": ["wit"], "q": 1}]},
+           {"op": "connect", "c": 91, "n": 1, "client": "wit-pub", "ka": 60000},
+           {"op": "connect", "c": 1, "n": 1, "client": "sleeper", "ka": ka},
+           {"op": "sub", "c": 1, "id": 1, "fs": [{"f": ["wit"], "q": qos}]},
+           {"op": "pub", "c": 91, "t": ["wit"], "p": "before", "q": 1, "id": 1},
+           {"op": "stall", "c": 1, "on": True}]
+    for i in range(3):
+        ops.append({"op": "pub", "c": 91, "t": ["wit"], "p": "during%d" % i, "q": 1, "id": 2 + i, "nowait": True})
+    for i in range(5):
+        ops += [{"op": "wait", "ms": 3500}, {"op": "idle", "ms": int(ka * 900), "nowait": True}]
+    ops += [{"op": "wait", "ms": 500}, {"op": "pub", "c": 91, "t": ["wit"], "p": "after", "q": 1, "id": 9}, {"op": "quiesce"}]
+    return {"nodes": [1], "lenient": True, "ops": ops}
+
+
 def check(run):
     thorough = run.tier == "thorough"
     rng = random.Random(run.seed)
@@ -226,7 +246,8 @@ def check(run):
         rng.shuffle(streams)
     per = 16
     scns = [build(streams[i:i + per]) for i in range(0, len(streams), per)]
-    run.log("%d hostile streams in %d broker scenarios" % (len(streams), len(scns)))
+    scns += [stalled_subscriber(1, 10), stalled_subscriber(2, 4)] + ([stalled_subscriber(0, 10), stalled_subscriber(1, 3)] if thorough else [])
+    run.log("%d hostile streams in %d broker scenarios (+ stalled subscribers)" % (len(streams), len(scns)))
     v = vlib.Verdict(run)
     # every scenario runs in a broker process of its own; a panic is recorded in the trace as "process.died" with the panic text
     tpath, crashes = brokerlib.execute(run, scns, "c18", shards=14, timeout=6000)
